@@ -42,6 +42,9 @@ func goid() uint64 {
 	return id
 }
 
+// SetPreemptionBound only matters to the engine's exploration.
+func SetPreemptionBound(n int) {}
+
 func Go(f func()) {
 	thr.mu.Lock()
 	thr.fns = append(thr.fns, f)
